@@ -48,7 +48,7 @@ StacksOfV(mm) ==
     [] mm[1] \\in {"ASSERT_LEFT", "ASSERT_RIGHT", "IF_RIGHT"} -> %s
     [] mm[1] \\in {"DIIP", "DUUP", "PAIR"} -> {Base}
     [] mm[1] = "UNPAIR" -> {<<Build(mm[2], Base)>> \\o <<Base[6]>>}
-    [] mm[1] \\in {"CADR", "MAP_CADR"} -> {<<FullTree(%d, 1)>> \\o <<Base[3]>>}
+    [] mm[1] \\in {"CADR", "MAP_CADR"} -> {<<FullTree(%d, 1)>> \\o <<Base[3]>>, <<FullTree(%d, 1)>> \\o <<Base[6], Base[3]>>}
     [] mm[1] = "SET_CADR" -> {<<FullTree(%d, 1), Base[3]>>, <<FullTree(%d, 1), FullTree(1, 50), Base[1]>>}
 ====
 """
@@ -64,12 +64,13 @@ def macros(quick):
     ms += [('IF_SOME', (PUSH(INT, i(1)), ('ADD',)), (PUSH(INT, i(-5)),)), ('IF_RIGHT', (('SIZE',), ('INT',)), ())]
     for n in range(2, 5 if quick else 6):
         ms += [('DIIP', n, (PUSH(INT, i(9)),)), ('DIIP', n, (DROP(1),)), ('DUUP', n)]
-    for n in range(2, 5 if quick else 7):
+    for n in range(2, 6 if quick else 7):
         for t in trees(n):
             ms += [('PAIR', t), ('UNPAIR', t)]
     depth = 3 if quick else 4
     for p in paths(depth):
-        ms += [('CADR', p), ('SET_CADR', p), ('MAP_CADR', p, (PUSH(INT, i(100)), ('ADD',))), ('MAP_CADR', p, (DROP(1), PUSH(STR, s('m'))))]
+        ms += [('CADR', p), ('SET_CADR', p), ('MAP_CADR', p, (PUSH(INT, i(100)), ('ADD',))), ('MAP_CADR', p, (DROP(1), PUSH(STR, s('m')))),
+               ('MAP_CADR', p, (DIP(1, DUP(1)), ('ADD',)))]       # a body that reads the element below the field
     return ms, depth
 
 
@@ -126,7 +127,7 @@ def run(ctx):
     bools = [(S(BOOL, T_), S(INT, i(3))), (S(BOOL, F_), S(INT, i(3)))]
     opts = [(S(OPT(INT), some(i(4))), S(INT, i(3))), (S(OPT(INT), none), S(INT, i(3)))]
     ors = [(S(OR(INT, STR), left(i(4))), S(INT, i(3))), (S(OR(INT, STR), right(s('rr'))), S(INT, i(3)))]
-    gen = {'MichMacroMC': MC % (to_tla(BASE), to_tla(set(ms)), to_tla(set(ints)), to_tla(BASE), to_tla(set(bools)), to_tla(set(opts)), to_tla(set(ors)), depth, depth, depth)}
+    gen = {'MichMacroMC': MC % (to_tla(BASE), to_tla(set(ms)), to_tla(set(ints)), to_tla(BASE), to_tla(set(bools)), to_tla(set(opts)), to_tla(set(ors)), depth, depth, depth, depth)}
     r = ctx.tlc('MichMacroMC', CFG, gen=gen, timeout=1500, coverage=False)
     ctx.require_no_violation(r, 'MichMacro')
     outs = [v for v in r.printed if v[0] == 'OUT']
@@ -160,6 +161,6 @@ META = {
              'on the typed stack of the reference semantics, not by expansion. TLC evaluates every macro of the universe on its stack pool and checks the laws between macros; '
              'each case is replayed by feeding the macro text to the pytezos parser/expander and executing the expansion, comparing the stack or failure.'),
     'design_ref': 'DESIGN.md section 5 C19, A.11',
-    'note': 'Trusted: my reading of the macro definitions of the Michelson reference, MichSem.tla, terms.py. Bounds: PAIR trees <= 4 (6) leaves, paths <= 3 (4), DII..P / DUU..P depth <= 4 (5).',
+    'note': 'Trusted: my reading of the macro definitions of the Michelson reference, MichSem.tla, terms.py. Bounds: PAIR trees <= 5 (6) leaves, paths <= 3 (4), DII..P / DUU..P depth <= 4 (5).',
     'technique': 'TLA+ direct macro semantics + TLC law checking; exhaustive replay through the pytezos parser, macro expander and interpreter',
 }
